@@ -918,6 +918,9 @@ func Run(seed int64, tier string) *report.Result {
 		}
 	})
 	_ = r
+	nNoop := nRandom / 4
+	ranNoop := rs.noopStage(seed, nNoop)
+	res.Extra("noop_pair_part", map[string]any{"histories": ranNoop, "rule": "the random histories again without their file-version bumps, each with AddEdge(X,Y,k);RemoveEdge(X,Y,k|nil) inserted at a random position on a pair without edges: every public answer after every later operation must equal the run without the pair (graph against graph, so the ambiguity zones are covered too)"})
 	res.Distinct = exCount + dist.N()
 	res.Rule = fmt.Sprintf("exhaustive: every history of 1..%d operations over a %d-letter alphabet (AddAlias/AddStruct/RemoveNode on 3 keys, AddEdge/RemoveEdge(kind|nil) on all 9 ordered pairs x 2 kinds (ty and typaram: one is a textual prefix of the other), one file-version bump), final state compared (every prefix is itself enumerated); random: %d histories of 1..60 operations over 6 keys in 2 files x 2+ versions, all 15 declared edge kinds, all typed adders, full read-back (Exists/Get/GetEdges/Children/Parents/Descendants/FindByKind on all 8 keys) after every operation. distinct = enumerated histories are distinct by construction + distinct random histories by content", maxLen, len(alpha), nRandom)
 	res.Extra("exhaustive_part", map[string]any{"histories": exCount, "max_len": maxLen, "alphabet": len(alpha)})
@@ -932,10 +935,201 @@ func Run(seed int64, tier string) *report.Result {
 	return res
 }
 
+// ---------- metamorphic stage: a no-op edge pair ----------
+//
+// AddEdge(X,Y,k) immediately followed by RemoveEdge(X,Y,k|nil), for a pair that has no edge at that point,
+// leaves the set-of-nodes/set-of-edges model unchanged, so every later public answer of the graph must read
+// the same with and without the pair. The model is not consulted for the verdict (only for the versions the
+// references carry, which are the same in both runs), so the comparison also covers histories that wander
+// into the ambiguity zones where the model abstains: whatever the graph decides there, it must not depend
+// on bookkeeping left behind by an edge that no longer exists.
+
+func (r *runner) sutFingerprint() string {
+	var sb strings.Builder
+	names := func(ns []*symboldg.SymbolNode) string { return strings.Join(sortedKeys(nodeSet(ns)), ",") }
+	for k := 0; k < nKeys; k++ {
+		key := r.s.key(k, r.verOf(k))
+		n := r.s.g.Get(key)
+		fmt.Fprintf(&sb, "%s:%v/%v[", keyName(k), r.s.g.Exists(key), n != nil)
+		var es []string
+		for _, d := range r.s.g.GetEdges(key, nil) {
+			es = append(es, edgeStr(d.Edge.From.BaseId(), d.Edge.To.BaseId(), string(d.Edge.Kind)))
+		}
+		sort.Strings(es)
+		sb.WriteString(strings.Join(es, ";") + "]")
+		if n != nil {
+			sb.WriteString(" ch=" + names(r.s.g.Children(n, nil)) + " pa=" + names(r.s.g.Parents(n, nil)) + " de=" + names(r.s.g.Descendants(n, nil)))
+		}
+		sb.WriteString(" | ")
+	}
+	sb.WriteString("all=" + names(r.s.g.FindByKind(allKinds...)))
+	return sb.String()
+}
+
+// traceOf runs ops on a fresh graph and returns the fingerprint after every operation.
+func traceOf(ops []Op) (out, errs []string) {
+	r := &runner{s: newSut(), m: newModel()}
+	out = make([]string, 0, len(ops))
+	for _, o := range ops {
+		e := ""
+		if err := r.apply(o); err != nil {
+			e = " err=" + firstLine(err.Error())
+		}
+		fp := ""
+		func() {
+			defer func() {
+				if rec := recover(); rec != nil {
+					fp = fmt.Sprintf("PANIC in read-back: %v", rec)
+				}
+			}()
+			fp = r.sutFingerprint()
+		}()
+		out = append(out, fp)
+		errs = append(errs, e)
+	}
+	return out, errs
+}
+
+func firstLine(s string) string {
+	if i := strings.IndexByte(s, '\n'); i >= 0 {
+		return s[:i]
+	}
+	return s
+}
+
+// noopPairDiff compares ops with ops minus the pair at positions p, p+1. Returns the index (in ops) of the first
+// operation after which the answers differ, or -1.
+func noopPairDiff(ops []Op, p int) (int, string) {
+	without := append(append([]Op(nil), ops[:p]...), ops[p+2:]...)
+	a, ae := traceOf(without)
+	b, be := traceOf(ops)
+	if p > 0 && b[p+1] != a[p-1] {
+		return p + 1, fmt.Sprintf("answers right after the pair: %s | before it: %s", b[p+1], a[p-1])
+	}
+	for i := p; i < len(without); i++ {
+		if a[i] != b[i+2] || ae[i] != be[i+2] {
+			return i + 2, fmt.Sprintf("after %s, with the pair: %s%s | without: %s%s", ops[i+2], b[i+2], be[i+2], a[i], ae[i])
+		}
+	}
+	return -1, ""
+}
+
+// insertNoopPair picks a position and a pair without any edge at that position.
+func insertNoopPair(ops []Op, r *rand.Rand) ([]Op, int) {
+	p := r.Intn(len(ops) + 1)
+	sc := &runner{s: newSut(), m: newModel()}
+	for _, o := range ops[:p] {
+		_ = sc.apply(o)
+	}
+	for try := 0; try < 8; try++ {
+		x, y := r.Intn(nDecl), r.Intn(nDecl)
+		if x == y {
+			continue
+		}
+		busy := false
+		for e := range sc.m.edges {
+			if (e.from == baseId(x) && e.to == baseId(y)) || (e.from == baseId(y) && e.to == baseId(x)) {
+				busy = true
+			}
+		}
+		if busy {
+			continue
+		}
+		kind := exKinds[r.Intn(len(exKinds))]
+		rm := kind
+		if r.Intn(2) == 0 {
+			rm = ""
+		}
+		out := append([]Op(nil), ops[:p]...)
+		out = append(out, Op{Kind: "edge", From: x, To: y, EdgeKind: kind}, Op{Kind: "unedge", From: x, To: y, EdgeKind: rm})
+		out = append(out, ops[p:]...)
+		return out, p
+	}
+	return nil, -1
+}
+
+func isNoopPair(a, b Op) bool {
+	return a.Kind == "edge" && b.Kind == "unedge" && a.From == b.From && a.To == b.To && a.From != a.To && (b.EdgeKind == "" || b.EdgeKind == a.EdgeKind)
+}
+
+func (rs *runState) noopStage(seed int64, n int) (ran int) {
+	type out struct {
+		ops    []Op
+		at     int
+		detail string
+	}
+	workers := runtime.NumCPU()
+	idx := make(chan int, 1024)
+	outs := make(chan out, 1024)
+	var wg sync.WaitGroup
+	for w := 0; w < workers; w++ {
+		wg.Add(1)
+		go func() {
+			defer wg.Done()
+			for i := range idx {
+				// no file-version bumps here: with stale-version references the graph's cascade depends on map
+				// iteration order (the model's version zones, not judged anywhere), which would make a
+				// graph-against-graph comparison unsound
+				var base []Op
+				for _, o := range genHistory(seed, i) {
+					if o.Kind != "touch" {
+						base = append(base, o)
+					}
+				}
+				if len(base) == 0 {
+					outs <- out{}
+					continue
+				}
+				ops, p := insertNoopPair(base, rng.New(seed, "C17", "noop-pair", fmt.Sprint(i)))
+				if ops == nil {
+					outs <- out{}
+					continue
+				}
+				at, d := noopPairDiff(ops, p)
+				outs <- out{ops, at, d}
+			}
+		}()
+	}
+	go func() {
+		for i := 0; i < n; i++ {
+			idx <- i
+		}
+		close(idx)
+		wg.Wait()
+		close(outs)
+	}()
+	for o := range outs {
+		if o.ops == nil {
+			rs.res.Inc("no-op pair stage: no free pair found (skipped)")
+			continue
+		}
+		ran++
+		rs.res.Evaluations++
+		if o.at >= 0 {
+			if rs.perKind["noop-edge-pair-changes-answers"] >= 25 {
+				rs.suppressed++
+				continue
+			}
+			rs.perKind["noop-edge-pair-changes-answers"]++
+			h := o.ops[:o.at+1]
+			rs.res.AddViolation("noop-edge-pair-changes-answers", map[string]string{"stage": "noop-pair"}, fmt.Sprintf("history %v: AddEdge immediately undone by RemoveEdge on a pair without edges changes later answers: %s", opStrings(h), o.detail), h)
+		}
+	}
+	return ran
+}
+
 func Replay(ops []Op) *report.Result {
 	res := &report.Result{Property: "C17"}
 	rs := &runState{res: res, perKind: map[string]int{}}
 	rs.judge(ops, true)
+	for p := 0; p+1 < len(ops); p++ {
+		if isNoopPair(ops[p], ops[p+1]) {
+			if at, d := noopPairDiff(ops, p); at >= 0 {
+				res.AddViolation("noop-edge-pair-changes-answers", map[string]string{"stage": "noop-pair"}, fmt.Sprintf("history %v: %s", opStrings(ops), d), ops)
+				break
+			}
+		}
+	}
 	fmt.Println(opStrings(ops))
 	res.Distinct = 2
 	return res
